@@ -30,6 +30,20 @@ def _scan(body, table, what):
     return found
 
 
+def _helper_patterns(s):
+    """the two pattern literals of rotatedNamePattern(datePattern) (with / without suffix); the date sub-pattern is %2
+    in both and directly followed by the index group"""
+    h = _flat(fn_body(s, 'QString rotatedNamePattern'))
+    pats = re.findall(r'QStringLiteral\("(\^[^"]*)"\)', h)
+    need(re.search(r'const auto escapedBaseName = QRegularExpression::escape\(fi\.completeBaseName\(\)\);', h), 'rotatedNamePattern: escaped base name')
+    for p_ in pats:
+        if not p_.startswith('^%1\\\\.%2\\\\.(\\\\d+)'):
+            raise AnchorError('ANCHOR NOT FOUND: rotatedNamePattern: ^<base>.<date>.(<index>)...')
+    if len(re.findall(r'\.arg\(escapedBaseName, datePattern', h)) != len(pats):
+        raise AnchorError('ANCHOR NOT FOUND: rotatedNamePattern: %1 = base name, %2 = date pattern')
+    return pats
+
+
 def compress_steps():
     """compressFile(): (list of step names in order, early-return facts)"""
     s = strip_comments(rd('sinks/rotatingfilesink.cpp'))
@@ -48,10 +62,11 @@ def compress_steps():
         ('COpenIn', r'inputFile\.open\(QIODevice::ReadOnly\)'),
         ('CCreateOut', r'outputFile\.open\(QIODevice::WriteOnly\)'),
         ('CReadCrc', r'calculateCRC32\(inputFile\)'),
-        ('CWriteHeader', r"outputFile\.putChar\('\\x1f'\)"),
+        ('CWriteHeader', r"outputFile\.putChar\('\\x1f'\)|writeGzipHeader\(outputFile\)"),
         ('CReadAll', r'inputFile\.readAll\(\)'),
         ('CWriteBody', r'outputFile\.write\(compressed\.constData\(\)'),
-        ('CWriteTrailer', r'outputFile\.write\(reinterpret_cast<const char\*>\(&le_\w+\), 4\); outputFile\.write\(reinterpret_cast<const char\*>\(&le_\w+\), 4\);'),
+        ('CWriteTrailer', r'outputFile\.write\(reinterpret_cast<const char\*>\(&le_\w+\), 4\); outputFile\.write\(reinterpret_cast<const char\*>\(&le_\w+\), 4\);'
+                          r'|writeGzipTrailer\(outputFile, fileCRC, fileSize\);'),
         ('CCloseIn', r'inputFile\.close\(\)'),
         ('CCloseOut', r'outputFile\.close\(\)'),
         ('CRemoveOrig', r'QFile::remove\(filePath\)'),
@@ -61,6 +76,12 @@ def compress_steps():
     for n, _ in table:
         if n not in names:
             raise AnchorError('ANCHOR NOT FOUND: compressFile: statement %s' % n)
+    # header / trailer written by helper functions: these touch nothing but the file object handed to them
+    for helper in ('writeGzipHeader', 'writeGzipTrailer'):
+        if re.search(r'\b%s\(' % helper, main):
+            hb = _flat(fn_body(s, 'static void ' + helper))
+            if re.findall(MUTATORS, hb) or re.search(r'\bclose\s*\(|\bflush\s*\(|\bseek\s*\(|QFile::|QDir', hb):
+                raise AnchorError('ANCHOR NOT FOUND: %s: only writes to the file it is given' % helper)
     # no unrecognised operation that changes the directory
     muts = re.findall(MUTATORS, main)
     known = sum(1 for n in names if n in ('COpenIn', 'CCreateOut', 'CRemoveOrig'))
@@ -76,9 +97,15 @@ def rotate_steps():
     need(re.search(r'^ ?if \(m_maxFileCount == 1\) return;', b), 'rotate: no-op when maxFileCount == 1')
     need(re.search(r'const auto &currentFileName = q_ptr->file\(\)->fileName\(\);', b), 'rotate: currentFileName')
     need(re.search(r'const auto rotatedFileName = generateRotatedFileName\(rotationDate, nextIndex\);', b), 'rotate: rotatedFileName')
+    # two spellings of "rename; when it failed report, otherwise compress if asked": the negative test with else-if, and
+    # the result kept in a const local tested positively
     m = need(re.search(r'if \(!QFile::rename\(currentFileName, rotatedFileName\)\) \{ std::cerr .*? std::endl; \} '
-                       r'else if \(m_compression\) \{ compressFile\(rotatedFileName\); \}', b),
+                       r'else if \(m_compression\) \{ compressFile\(rotatedFileName\); \}', b)
+             or re.search(r'const auto renamed = QFile::rename\(currentFileName, rotatedFileName\); if \(renamed\) \{ '
+                          r'if \(m_compression\) \{ compressFile\(rotatedFileName\); \} \} else \{ std::cerr [^{}]*? std::endl; \}', b),
              'rotate: rename; on failure report, otherwise compress when asked')
+    if len(re.findall(r'\brenamed\b', b)) not in (0, 2):
+        raise AnchorError('ANCHOR NOT FOUND: rotate: the rename result is used exactly once (the test that follows it)')
     mo = need(re.search(r'if \(!q_ptr->file\(\)->open\(([^()]*)\)\) \{ std::cerr', b), 'rotate: reopen, reporting failure')
     flags = [f.strip() for f in mo.group(1).split('|')]
     if 'QIODevice::Append' in flags and 'QIODevice::Truncate' not in flags and 'QIODevice::WriteOnly' in flags:
@@ -110,8 +137,15 @@ def other_facts():
     # removeOldFiles: keep maxFileCount - k rotated files, remove the first of the sorted list
     b = _flat(fn_body(s, 'void removeOldFiles'))
     need(re.search(r'if \(m_maxFileCount <= 0\) return;', b), 'removeOldFiles: unlimited when maxFileCount <= 0')
-    mk = need(re.search(r'while \(rotatedFiles\.size\(\) > m_maxFileCount - (\d+)\) \{ const QString &oldestFile = rotatedFiles\.first\(\); '
-                        r'if \(!QFile::remove\(oldestFile\)\) \{ std::cerr .*? \} rotatedFiles\.removeFirst\(\); \}', b),
+    # two spellings of "remove the first size - (maxFileCount - k) entries of the sorted list": popping the front while
+    # too many remain, and an iterator over the first `surplus` entries of the (const) list
+    mk = need(re.search(r'auto rotatedFiles = findRotatedFiles\(\); while \(rotatedFiles\.size\(\) > m_maxFileCount - (\d+)\) \{ const QString &oldestFile = rotatedFiles\.first\(\); '
+                        r'if \(!QFile::remove\(oldestFile\)\) \{ std::cerr .*? \} rotatedFiles\.removeFirst\(\); \} ?$', b)
+              or re.search(r'const auto maxRotatedFiles = m_maxFileCount - (\d+); const auto rotatedFiles = findRotatedFiles\(\); '
+                           r'const auto surplus = rotatedFiles\.size\(\) - maxRotatedFiles; if \(surplus <= 0\) return; '
+                           r'const auto firstKept = rotatedFiles\.constBegin\(\) \+ surplus; '
+                           r'for \(auto it = rotatedFiles\.constBegin\(\); it != firstKept; \+\+it\) \{ '
+                           r'if \(!QFile::remove\(\*it\)\) \{ std::cerr [^{}]*? \} \} ?$', b),
               'removeOldFiles: while more than maxFileCount - 1 remain remove the first')
     if len(re.findall(MUTATORS, b)) != 1:
         raise AnchorError('ANCHOR NOT FOUND: removeOldFiles: unexpected file operation')
@@ -121,18 +155,30 @@ def other_facts():
          'findRotatedFiles: victim key (date, index, path)')
     need(re.search(r'return key\(a\) < key\(b\);', fr), 'findRotatedFiles: ascending sort')
     pats = re.findall(r'QStringLiteral\("(\^[^"]*)"\)', fr)
+    if not pats:
+        # the two name patterns built by a helper shared with the index scan; the date sub-pattern passed in is the capture group
+        need(re.search(r'rotatedNamePattern\(QStringLiteral\("\(\\\\d\{4\}-\\\\d\{2\}-\\\\d\{2\}\)"\)\)', fr),
+             'findRotatedFiles: name pattern with the date as capture group 1')
+        pats = _helper_patterns(s)
     if len(pats) != 2 or not all(_ends_gz(p) for p in pats):
         raise AnchorError('ANCHOR NOT FOUND: findRotatedFiles: both patterns end in (\\.gz)? and an end anchor')
     # findNextIndexForDate: 1 + max index over plain and .gz names
     fi = _flat(fn_body(s, 'int findNextIndexForDate'))
     pats = re.findall(r'QStringLiteral\("(\^[^"]*)"\)', fi)
+    if not pats:
+        need(re.search(r'rotatedNamePattern\(QRegularExpression::escape\(dateStr\)\)', fi), 'findNextIndexForDate: name pattern for the escaped date')
+        need(re.search(r'const auto dateStr = date\.toString\(Qt::ISODate\);', fi), 'findNextIndexForDate: ISO date string')
+        pats = _helper_patterns(s)
     if len(pats) != 2:
         raise AnchorError('ANCHOR NOT FOUND: findNextIndexForDate: two patterns')
     counts_gz = all(_ends_gz(p) for p in pats)
-    need(re.search(r'auto index = match\.captured\(1\)\.toInt\(\); if \(index > maxIndex\) \{ maxIndex = index; \}', fi),
-         'findNextIndexForDate: maximum of the captured indices')
-    mi = need(re.search(r'return maxIndex \+ (\d+);', fi), 'findNextIndexForDate: return maxIndex + 1')
-    need(re.search(r'auto maxIndex = 0;', fi), 'findNextIndexForDate: maxIndex starts at 0')
+    # two spellings of the running maximum over the matching entries
+    mv = need(re.search(r'auto (maxIndex) = 0;.*if \(match\.hasMatch\(\)\) \{ auto index = match\.captured\(1\)\.toInt\(\); if \(index > maxIndex\) \{ maxIndex = index; \} \}', fi)
+              or re.search(r'auto (\w+) = 0;.*if \(!match\.hasMatch\(\)\) continue; \1 = std::max\(\1, match\.captured\(1\)\.toInt\(\)\);', fi),
+              'findNextIndexForDate: maximum of the captured indices, starting at 0')
+    mi = need(re.search(r'return %s \+ (\d+); ?$' % mv.group(1), fi), 'findNextIndexForDate: return maxIndex + 1')
+    if len(re.findall(r'\b%s = ' % mv.group(1), fi)) != 2:
+        raise AnchorError('ANCHOR NOT FOUND: findNextIndexForDate: the maximum is assigned exactly twice (0, update)')
     # size rule and send order
     cs = _flat(fn_body(s, 'void checkSizeRotation'))
     need(re.search(r'if \(currentSize > 0 && \(currentSize \+ additionalSize\) > m_maxFileSize\) \{ rotate\(\); \}', cs),
